@@ -663,6 +663,80 @@ func checkC01(c *Ctx) {
 	// ---- C01.8 the station selects from the client's own list: the subnets of a generation are used in the order they
 	// are configured (the address id is mapped onto them in list order) and only the requested generation's entry is
 	// used (a neighbouring generation's list is a different list)
+	// ---- C01.10 the DTLS peer check accepts by the secret-derived key alone: the certificates also carry a validity
+	// window taken from the local clock, so comparing their bytes (or dates) makes acceptance depend on the date
+	r.Rule("C01.10", "the DTLS peer check does not compare clock-derived certificate fields", 1)
+	if f := c.fn("C01.10", "pkg/dtls", "", "verifyCert"); f != nil {
+		clocky := []string{".RawTBSCertificate", ".Raw,", ".Raw)", ".NotBefore", ".NotAfter", ".RawSubjectPublicKeyInfo"}
+		var bad []string
+		var pos token.Pos = f.Pos()
+		note := func(sx string, p token.Pos) {
+			for _, k := range clocky {
+				if strings.Contains(sx, k) {
+					// CheckSignature(alg, presented.RawTBSCertificate, presented.Signature) is the signature check itself
+					bad = append(bad, firstN(sx, 80))
+					pos = p
+					return
+				}
+			}
+		}
+		eachInstr(f, func(in ssa.Instruction) {
+			switch x := in.(type) {
+			case *ssa.If:
+				cnd, _ := normCond(x.Cond)
+				note(cnd, x.Cond.Pos())
+			case *ssa.Call:
+				n := calleeName(&x.Call)
+				if n == "bytes.Equal" || n == "bytes.Compare" || n == "crypto/subtle.ConstantTimeCompare" || strings.HasSuffix(n, ".Equal") || strings.HasSuffix(n, ".Before") || strings.HasSuffix(n, ".After") {
+					note(pathOf(x)+")", x.Pos())
+				}
+			}
+		})
+		r.Check(len(bad) == 0, "C01.10", "verifyCert: acceptance rests on the signature under the derived key only", pos, fnName(f), "no comparison of raw certificate bytes or validity dates",
+			"verifyCert compares "+strings.Join(bad, "; ")+": the derived certificates embed a validity window computed from time.Now(), so two parties holding the same secret reject each other when they derive on different days - the accepted credential is no longer a function of the secret alone")
+	}
+
+	// ---- C01.9 the published selection works on whole big integers (ids and offsets of IPv6 networks exceed 64 bits):
+	// a big.Int is narrowed to a machine word only where its bound is a machine word
+	r.Rule("C01.9", "selection never narrows a big integer to 64 bits unless it was drawn below a 64-bit bound", 1)
+	{
+		n := 0
+		for _, f := range c.funcsOfPkgs("pkg/phantoms") {
+			eachInstr(f, func(in ssa.Instruction) {
+				call, ok := in.(*ssa.Call)
+				if !ok {
+					return
+				}
+				switch calleeName(&call.Call) {
+				case "(*math/big.Int).Uint64", "(*math/big.Int).Int64":
+				default:
+					return
+				}
+				n++
+				okk, how := false, ""
+				// the receiver is the result of rand.Int(reader, big.NewInt(<machine integer>))
+				if ex, isEx := call.Call.Args[0].(*ssa.Extract); isEx && ex.Index == 0 {
+					if draw, isCall := ex.Tuple.(*ssa.Call); isCall && calleeName(&draw.Call) == "crypto/rand.Int" {
+						if b, isCall := draw.Call.Args[1].(*ssa.Call); isCall && calleeName(&b.Call) == "math/big.NewInt" {
+							okk, how = true, "drawn below big.NewInt("+firstN(pathOf(b.Call.Args[0]), 30)+")"
+						}
+					}
+				}
+				if !okk {
+					okk = guardedM(f, in, func(cnd string, pol bool) bool {
+						return pol && (strings.HasSuffix(cnd, ".IsUint64()") || strings.HasSuffix(cnd, ".IsInt64()"))
+					})
+					how = "guarded by IsUint64 / IsInt64"
+				}
+				r.Check(okk, "C01.9", fnName(f)+": "+calleeShort(&call.Call)+" of "+firstN(pathOf(call.Call.Args[0]), 40)+" loses nothing", in.Pos(), fnName(f), how,
+					"a big integer of the selection ("+firstN(pathOf(call.Call.Args[0]), 40)+") is cut to 64 bits: ids and offsets of IPv6 networks shorter than /64 do not fit, the upper bits are dropped, and the station picks another address than clients computing the published algorithm")
+			})
+		}
+		if n == 0 {
+			r.OK("C01.9", "pkg/phantoms: no big.Int is narrowed", token.NoPos, "no Uint64 / Int64 call")
+		}
+	}
+
 	r.Rule("C01.8", "configured subnet order is kept (only the reviewed weight sort); a generation resolves to its own entry only", 2)
 	{
 		var sorts []string
